@@ -117,11 +117,12 @@ SRC_TIE = {
     "C04": ["activateSync", "activateAsync", "processSync", "processAsync"] + _A,
     "C06": ["processSync", "processAsync"],
     "C05": ["activateSync", "activateAsync", "triggerSync", "triggerAsync", "processSync", "processAsync"] + _W + _G + _A,
-    "C08": _W + _G,
+    "C08": _W + _G + ["parser"],
     "C11": ["triggerSync", "triggerAsync", "engineStart"],
     "C14": ["activateSync", "activateAsync"] + _W + _A,
 }
 TIE_MOD = "SMV.Src.Tie"
+TIE_MODS = ["SMV.Src.Tie", "SMV.Src.TieExpr"]
 
 
 def source_tie(ctx: Ctx):
@@ -178,7 +179,7 @@ def lean_obligations(ctx: Ctx, modules=None):
     mod = f"SMV.Props.{prop}"
     failed = []
     t = time.time()
-    mods = [mod] + ([TIE_MOD] if prop in SRC_TIE else [])
+    mods = [mod] + (TIE_MODS if prop in SRC_TIE else [])
     b = subprocess.run(["lake", "build", *mods, "driver"], cwd=LEAN, capture_output=True, text=True)
     if b.returncode != 0:
         failed.append("build:" + (b.stdout + b.stderr)[-1500:])
